@@ -72,7 +72,7 @@ CORE_TEXT = {
  'C01': 'guards of every state-changing call refuse without effect (any wrong state, zombies, no context); plus per-run monitors: no handler for a non-RUNNING module, reported running count = RUNNING modules',
  'C02': 'copies: ineligible modules get nothing, eligible ones exactly one copy appended at the tail of their pipe carrying sender/topic/payload, full pipe drops the copy, capacity >= 8192, direct tell reaches the addressee only; per-run monitors: at-most-once, send order, auto-free exactly once',
  'C03': 'errno non-interference of event reception, dispatch case analysis, quit code recorded and returned, ready set sound and bounded by max_events, event userdata = source userdata',
- 'C04': 'ref-counted heap discipline of the model (ref/unref steps, destructor once at zero, use of freed objects flagged); the property itself is judged per run by ASan/UBSan and the allocator census (partial by nature)',
+ 'C04': 'ref-counted heap discipline of the model (ref/unref steps, destructor once at zero, use of freed objects flagged); the property itself is judged per run by ASan/UBSan and the allocator census (partial by nature); known finding D10 (task thread outliving its source) is listed in known_findings.txt and reproduced by a corpus case',
  'C07': 'second context refused with EEXIST, every context call / registration without context refused with EPIPE, module operations refused with EPERM, looping or zombie context refuses deregistration, finalized context refuses registration',
  'C08': 'copies are appended at the pipe tail, events are appended to the batch in arrival order and handed over in that order; per-run monitor of per-recipient send order incl. pills',
  'C09': 'registry steps: present key -> EEXIST, absent -> added, bad priority -> EINVAL without token, deregister present removes exactly that entry, absent -> error without effect, tasks cannot be deregistered',
